@@ -30,10 +30,11 @@ Definition local_check (slot : option tstamp) (fc : bool) (tsv now : Z)
   | Some ref =>
       if Uptime.is_bad_frequency ref then (slot, (None, None))
       else match Uptime.calculate_frequency_p0f_style (Uptime.ts_now tsv now) ref with
-           | Some raw =>
+           | Uptime.FreqOk raw =>
                let u := Uptime.calculate_uptime_from_frequency tsv (Uptime.final_frequency raw) in
                (slot, if fc then (Some u, None) else (None, Some u))
-           | None => (Some Uptime.bad_frequency_marker, (None, None))
+           | Uptime.FreqWait => (slot, (None, None))
+           | Uptime.FreqErr => (Some Uptime.bad_frequency_marker, (None, None))
            end
   | None => (Some (Uptime.ts_now tsv now), (None, None))
   end.
@@ -55,6 +56,7 @@ Proof.
   destruct (cache_get tr (conn, fc)) as [ref|] eqn:G.
   - destruct (Uptime.is_bad_frequency ref); cbn [fst snd]; [split; [reflexivity | exact Hid]|].
     destruct (Uptime.calculate_frequency_p0f_style (Uptime.ts_now v now) ref); cbn [fst snd].
+    + split; [reflexivity | exact Hid].
     + split; [reflexivity | exact Hid].
     + split; [reflexivity|]. intro k'. rewrite UptimeTrackProofs.cache_get_insert, key_eqb_sym. reflexivity.
   - cbn [fst snd]. split; [reflexivity|]. intro k'. rewrite UptimeTrackProofs.cache_get_insert, key_eqb_sym. reflexivity.
@@ -97,7 +99,7 @@ Proof.
   - unfold Uptime.check_ts_tcp. pose proof (cache_insert_len tr (conn, fc)) as L.
     destruct (cache_get tr (conn, fc)) as [ref|] eqn:G.
     + destruct (Uptime.is_bad_frequency ref); cbn [fst]; [lia|].
-      destruct (Uptime.calculate_frequency_p0f_style _ ref); cbn [fst]; [lia|]. apply L.
+      destruct (Uptime.calculate_frequency_p0f_style _ ref); cbn [fst]; [lia|lia|]. apply L.
     + cbn [fst]. apply L.
   - rewrite (proj2 (check_sim tr conn fc v now)), UptimeTrackProofs.key_eqb_refl.
     unfold local_check. destruct (cache_get tr (conn, fc)) as [ref|] eqn:G; [|discriminate].
@@ -284,7 +286,7 @@ Proof.
   { split; [exact H | apply incl_tl, incl_refl]. }
   unfold Uptime.check_ts_tcp. destruct (cache_get tr (conn, fc)) as [ref|].
   - destruct (Uptime.is_bad_frequency ref); cbn [fst]; [exact Hsame|].
-    destruct (Uptime.calculate_frequency_p0f_style _ ref); cbn [fst]; [exact Hsame|]. now apply keys_cache_insert.
+    destruct (Uptime.calculate_frequency_p0f_style _ ref); cbn [fst]; [exact Hsame|exact Hsame|]. now apply keys_cache_insert.
   - cbn [fst]. now apply keys_cache_insert.
 Qed.
 Lemma ts_updates_keys cap conn fc now : forall vs tr acc,
